@@ -1095,6 +1095,12 @@ func (sm *StyleManager) addTOCStyles() {
 // GetStyleWithInheritance 获取具有继承属性的样式
 // 如果样式基于其他样式，会合并父样式的属性
 func (sm *StyleManager) GetStyleWithInheritance(styleID string) *Style {
+	return sm.getStyleWithInheritance(styleID, make(map[string]bool))
+}
+
+// getStyleWithInheritance 解析继承链；visiting 记录当前链上已访问的样式，
+// basedOn 关系成环时（例如来自外部文档的损坏样式表）在回到已访问样式处截断，避免无限递归
+func (sm *StyleManager) getStyleWithInheritance(styleID string, visiting map[string]bool) *Style {
 	style := sm.GetStyle(styleID)
 	if style == nil {
 		return nil
@@ -1105,8 +1111,13 @@ func (sm *StyleManager) GetStyleWithInheritance(styleID string) *Style {
 		return style
 	}
 
+	visiting[styleID] = true
+	if visiting[style.BasedOn.Val] {
+		return style
+	}
+
 	// 递归获取基础样式
-	baseStyle := sm.GetStyleWithInheritance(style.BasedOn.Val)
+	baseStyle := sm.getStyleWithInheritance(style.BasedOn.Val, visiting)
 	if baseStyle == nil {
 		return style
 	}
